@@ -707,7 +707,9 @@ class _SetOperation(Selectable, Term):  # type:ignore[misc]
     def __hash__(self) -> int:
         return hash(self.alias)
 
-    def get_sql(self, ctx: SqlContext) -> str:
+    def get_sql(self, ctx: SqlContext | None = None) -> str:  # type:ignore[override]
+        # (without a context: that of the base query's dialect class, as for str() and for a query's own get_sql())
+        ctx = ctx or self.base_query.QUERY_CLS.SQL_CONTEXT
         set_operation_template = " {type} {query_string}"
 
         # an operand's own alias defines no name inside the set operation
@@ -2486,7 +2488,7 @@ class CreateQueryBuilder:
     def if_not_exists(self) -> "Self":  # type:ignore[return]
         self._if_not_exists = True
 
-    def get_sql(self, ctx: SqlContext | None) -> str:
+    def get_sql(self, ctx: SqlContext | None = None) -> str:
         """
         Gets the sql statement string.
 
